@@ -16,6 +16,7 @@
 EXTENDS Integers, Sequences, FiniteSets, TLC
 
 CONSTANTS Accts, Slots, Offs, Types, Names, Vals, MaxOps, MaxCalls,
+          MaxRefused,      \* at most this many refused operations in one history (they are what blows the space up)
           ProbeSlot,       \* a slot never used for a well-formed registration: stands for "unknown parent"
           DevFirstWins
 
@@ -88,7 +89,9 @@ AddUnder(a, ks, parent, n, s, o, t) ==
      /\ kchild' = IF exists THEN kchild ELSE kchild \cup {<<parent, s, o, new>>}
      /\ index' = IF FindKey(a, c.slot, c.off, c.type) = 0 THEN index \cup {<<a, c.slot, c.off, c.type, child>>} ELSE index
 
+RefusedSoFar == Cardinality({i \in 1..Len(hist) : hist[i].res = "refused"})
 Refused(rec) ==
+  /\ RefusedSoFar < MaxRefused
   /\ hist' = Append(hist, rec)
   /\ UNCHANGED <<keys, kchild, kname, index, roots, chg, calls, cur, reg, exp>>
 
